@@ -30,9 +30,11 @@ type H struct{}
 
 var permPool = []int{-2, -1, 0, 1, 2, 3, 4, 5, -3}
 var methods = []string{"GET", "HEAD", "POST", "PUT", "DELETE", "PATCH", "OPTIONS", "OPTIONS+GET", "OPTIONS+POST"}
-var origins = []string{"", "http://api.local", "http://api.local:817", "http://evil.example", "chrome-extension://abcdef", "http://localhost", "http://127.0.0.1:4200", "http://[::1", "null"}
+var origins = []string{"", "http://api.local", "http://api.local:817", "http://evil.example", "chrome-extension://abcdef", "http://localhost", "http://127.0.0.1:4200", "http://[::1", "null", "http://api.local:9999", "https://api.local"}
 
-const host = "api.local"
+var hosts = []string{"api.local", "api.local:817"}
+
+var host = hosts[0]
 
 // KeySpec is one configured API key.
 type KeySpec struct {
@@ -55,6 +57,7 @@ type Step struct {
 	AuthR   int       `json:"auth_r,omitempty"`
 	AuthW   int       `json:"auth_w,omitempty"`
 	Origin  int       `json:"origin,omitempty"`
+	Host    int       `json:"host,omitempty"`
 	Panic   bool      `json:"panic,omitempty"`
 	Secs    int       `json:"secs,omitempty"`
 	Keys    []KeySpec `json:"keys,omitempty"`
@@ -108,6 +111,7 @@ func (H) Generate(prop string, rng *rand.Rand, tier string) any {
 		}
 		if rng.IntN(3) == 0 {
 			s.Origin = rng.IntN(len(origins))
+			s.Host = rng.IntN(len(hosts))
 		}
 		s.Panic = prop == "C06" || rng.IntN(12) == 0
 		s.Secs = []int{1, 60, 240, 290, 310, 360, 700}[rng.IntN(7)]
@@ -341,6 +345,7 @@ func (s *state) request(si int, st Step, h http.Handler) {
 		m = "OPTIONS"
 	}
 	reqR, reqW := permPool[st.ReqR], permPool[st.ReqW]
+	host = hosts[st.Host%len(hosts)]
 	req := httptest.NewRequest(m, fmt.Sprintf("http://%s/vs/%d/%d", host, reqR, reqW), nil)
 	req.Host = host
 	req.RemoteAddr = "10.1.2.3:5555"
